@@ -526,7 +526,7 @@ Proof. split; [reflexivity|]. split; [vm_compute; reflexivity|]. split; [vm_comp
 
 (* 1.10 is above 1.9 (components are numbers), 1.0.1 above 1.0+1 above 1.0 above 1.0-rc1; v2.0 has another
    letter prefix and never satisfies an expression over plain numbers; the dotted-numeric comparator of
-   Model/Resolve.v reads 1.0+1 as 1.01 and gets the second one wrong *)
+   Model/Resolve.v reads 1.0+1 as 1.01 and answers 1.0 to the third request (last line) *)
 Example rv_expressions :
   rv_walk ">= 1.0.1" = rv_found "s2" "1.10" ">= 1.0.1" /\
   rv_walk "< 1.10" = rv_found "s2" "1.10-rc1" "< 1.10" /\
@@ -539,17 +539,22 @@ Example rv_expressions :
   rv_walk "< 1.0-rc1 || == 1.0+1" = rv_found "s1" "1.0+1" "< 1.0-rc1 || == 1.0+1" /\
   option_map fst (find_from_vro vcmp_simple vmatch_simple ex_cfg rv_db None (lit "Linux64") 1 (ex_vro [] [])
                                 (ex_rq (Some (lit "< 1.0.1")) None))
-  = Some (mkFound (lit "s1") (lit "foo") (lit "1.0-rc1") (lit "Linux64")).
+  = Some (mkFound (lit "s1") (lit "foo") (lit "1.0") (lit "Linux64")).
 Proof. vm_compute. repeat split. Qed.
 
-(* the tag latest over both stacks, and the designation rule evaluated on the same requests *)
+(* the tag latest over both stacks (in sorting mode the letter prefix v puts v2.0 above every plain number:
+   components that are not both numbers compare as strings), and the designation rule on the same requests;
+   a declared explicit version is taken by the entry version before versionExpr looks at the bracketed
+   expression; an expression that ends in an operator is outside the domain *)
 Example rv_latest_and_spec :
   find_latest vcmp_real rv_db (lit "foo") (lit "Linux64")
-  = Some (mkFound (lit "s2") (lit "foo") (lit "1.10") (lit "Linux64")) /\
+  = Some (mkFound (lit "s2") (lit "foo") (lit "v2.0") (lit "Linux64")) /\
   designates_in vcmp_real vmatch_real ex_cfg rv_db (lit "foo") (classify (ex_rq (Some (lit "< 1.10")) None))
                 (lit "Linux64") (ex_vro [] [])
   = Some (mkFound (lit "s2") (lit "foo") (lit "1.10-rc1") (lit "Linux64")) /\
   resolve_real ex_cfg rv_db false None ex_flavors 1 (ex_vro [] []) (ex_rq (Some (lit "1.0")) (Some (lit ">= 1.0+1")))
+  = Ok (Some (mkFound (lit "s1") (lit "foo") (lit "1.0") (lit "Linux64"), Some (EVersion, Some (lit "1.0")))) /\
+  resolve_real ex_cfg rv_db false None ex_flavors 1 (ex_vro [] []) (ex_rq (Some (lit "3.0")) (Some (lit ">= 1.0+1")))
   = Ok (Some (mkFound (lit "s2") (lit "foo") (lit "1.10") (lit "Linux64"), Some (EVersionExpr, Some (lit ">= 1.0+1")))) /\
   resolve_real ex_cfg rv_db false None ex_flavors 1 (ex_vro [] []) (ex_rq (Some (lit ">=")) None) = Err Undefined.
 Proof. vm_compute. repeat split. Qed.
@@ -586,4 +591,64 @@ Proof. vm_compute. repeat split. Qed.
 Example real_comparator_cycle_outside_conv :
   conv_names [lit "2"; lit "10"; lit "1a"] = false /\ forallb accepts [lit "2"; lit "10"; lit "1a"] = true /\
   vcmp_real (lit "2") (lit "10") = Lt /\ vcmp_real (lit "10") (lit "1a") = Lt /\ vcmp_real (lit "1a") (lit "2") = Lt.
+Proof. vm_compute. repeat split. Qed.
+
+(* ------------------------------------------------------------------ one stack with sorted listings *)
+
+(* Database.findProducts lists the version files of a product sorted as strings (db_sorted says that of the view).
+   vcmp_sorted is the order of C10 refined, among names with one key, by the order of the strings; it is a total order
+   on conventional names, whatever they spell.  Over ONE stack with sorted listings the look-ups with the real comparator
+   are the look-ups with vcmp_sorted, so the walk is the designation rule read in that order: of 1.0 and 1_0 the
+   latter is the higher.  (This is the database view of the composed setup model; Props/C01.v and C02.v use it.) *)
+From Eupsv Require Import Proofs.ResolveRealSorted.
+
+Theorem sorted_order_is_total l : conv_names l = true -> total_order_on vcmp_sorted l.
+Proof. apply sorted_total_order. Qed.
+Print Assumptions sorted_order_is_total.
+
+Theorem walk_is_designation_one_sorted_stack c s f depth vro rq :
+  wf_db [s] = true -> db_sorted [s] = true -> (forall n, conv_names (names_of [s] n) = true) ->
+  option_map fst (find_from_vro vcmp_real vmatch_real c [s] None f depth vro rq) =
+  designates_in vcmp_sorted vmatch_real c [s] (rq_name rq) (classify rq) f vro.
+Proof.
+  intros WF S C.
+  rewrite (find_from_vro_congr vcmp_real vcmp_sorted vmatch_real vmatch_real [s]).
+  - apply walk_is_designation; [exact WF|]. apply sorted_total_order, C.
+  - intros n f0. apply find_latest_one_stack; [exact S|apply C].
+  - intros n x f0. apply expr_one_stack; [exact S|apply C].
+Qed.
+Print Assumptions walk_is_designation_one_sorted_stack.
+
+Theorem resolve_is_designation_one_sorted_stack c s keep flavors depth vro rq :
+  wf_db [s] = true -> db_sorted [s] = true -> (forall n, conv_names (names_of [s] n) = true) ->
+  exists r, resolve_request vcmp_real vmatch_real c [s] keep None flavors depth vro rq = Ok r /\
+            option_map fst r = designates vcmp_sorted vmatch_real c [s] flavors depth vro rq.
+Proof.
+  intros WF S C.
+  rewrite (resolve_request_congr vcmp_real vcmp_sorted vmatch_real vmatch_real [s]).
+  - apply resolve_is_designation; [exact WF|]. apply sorted_total_order, C.
+  - intros n f0. apply find_latest_one_stack; [exact S|apply C].
+  - intros n x f0. apply expr_one_stack; [exact S|apply C].
+Qed.
+Print Assumptions resolve_is_designation_one_sorted_stack.
+
+(* inhabited, and why ONE stack: over the two stacks of tie_db the listings are sorted too, the tag latest still agrees
+   with the refined order (1_0 of s1), but the expression == 1.0 is answered with 1.00 of s2 where the refined order
+   names 1_0 *)
+Example sorted_stack_example :
+  let s := mkStack (lit "s1") [(lit "foo", lit "0.9", lit "Linux64"); (lit "foo", lit "1.0", lit "Linux64");
+                               (lit "foo", lit "1_0", lit "Linux64")] [] in
+  wf_db [s] = true /\ db_sorted [s] = true /\ conv_names (names_of [s] (lit "foo")) = true /\
+  real_names_ok (names_of [s] (lit "foo")) = false /\
+  option_map fst (find_from_vro vcmp_real vmatch_real ex_cfg [s] None (lit "Linux64") 1 (ex_vro [] [])
+                                (ex_rq (Some (lit "== 1.0")) None))
+  = Some (mkFound (lit "s1") (lit "foo") (lit "1_0") (lit "Linux64")) /\
+  designates_in vcmp_sorted vmatch_real ex_cfg [s] (lit "foo") (classify (ex_rq (Some (lit "== 1.0")) None))
+                (lit "Linux64") (ex_vro [] [])
+  = Some (mkFound (lit "s1") (lit "foo") (lit "1_0") (lit "Linux64")) /\
+  db_sorted tie_db = true /\
+  highest vcmp_sorted (filter (fun p => vmatch_real (fd_version p) (lit "== 1.0")) (candidates tie_db (lit "foo") (lit "Linux64")))
+  = Some (mkFound (lit "s1") (lit "foo") (lit "1_0") (lit "Linux64")) /\
+  select_latest vcmp_real (find_by_expr vmatch_real tie_db (lit "foo") (lit "== 1.0") (lit "Linux64"))
+  = Some (mkFound (lit "s2") (lit "foo") (lit "1.00") (lit "Linux64")).
 Proof. vm_compute. repeat split. Qed.
